@@ -80,7 +80,10 @@ def heap_effects(stmts, eng):
                     cs = eng.reg.by_name.get(f.attr, [])
                     if any(c.assigns for c in cs) or (f.attr in eng.reg.opaque and not eng.reg.opaque[f.attr].get("pure")):
                         whole[0] = True
-            elif isinstance(f, ast.Name):
+            nm = f.attr if isinstance(f, ast.Attribute) else f.id if isinstance(f, ast.Name) else None
+            if nm in eng.reg.opaque and eng.reg.opaque[nm].get("log"):
+                names.add(eng.reg.opaque[nm]["log"])
+            if isinstance(f, ast.Name):
                 cs = eng.reg.by_name.get(f.id, [])
                 if any(c.assigns for c in cs) or (f.id in eng.reg.opaque and not eng.reg.opaque[f.id].get("pure")):
                     whole[0] = True
@@ -121,6 +124,18 @@ class Verifier(Engine):
             raise OutOfSubset("*args/**kwargs in signature of %s" % c.func)
         for gname, gkind in c.ghost.items():
             env[gname] = T(gkind, z3.Const("g_" + gname, KIND_SORT[gkind]))
+        for gname, gkind in c.opts.get("globals", {}).items():
+            t = z3.Const("glob_" + gname, KIND_SORT[gkind])
+            env[gname] = T(gkind, t)
+            if gkind == "V":
+                st.assume(z3.Implies(is_ref(t), z3.And(V.rv(t) >= 0, V.rv(t) < h.alloc)))
+        for gname in c.opts.get("ghost_lists", []):
+            r = z3.Int("ghostlist_" + gname)
+            st.assume(r == h.alloc)
+            h.alloc = r + 1
+            st.assume(typ(r) == cid("list"))
+            st.assume(h.llen(r) == 0)
+            env[gname] = tV(V.ref(r))
         entry = St(dict(env), h.copy(), [])
         fx.entry = entry
         for text, f in self.spec_conj(c.requires, st, None, fx):
@@ -134,7 +149,11 @@ class Verifier(Engine):
         if not self.sat_known(st):
             raise CheckerError("precondition of %s is unsatisfiable or undecided (vacuity check)" % c.func)
         fx.handler_exc = []
+        fx.used = set()
         outs = self.run_block(fsrc.node.body, st, fx)
+        for u in c.uses:
+            if u["after"] not in fx.used:
+                raise CheckerError("stale lemma use: no statement %r in %s" % (u["after"], c.func))
         nret = 0
         for kind, payload, s in outs:
             rec["paths"] += 1
@@ -184,6 +203,10 @@ class Verifier(Engine):
         goal = z3.Or(alts) if alts else z3.BoolVal(False)
         kind = "raises-only" if alts else "no-raise"
         self.emit(fx, kind, exc.line, st, goal, note="exception: %s" % exc.what)
+        if c.raises_ensures:
+            post_st = St(dict(entry.env), st.heap, st.pc)
+            for text, f in self.spec_conj(c.raises_ensures, post_st, entry, fx):
+                self.emit(fx, "post-raise", exc.line, st, f, note="on raise: " + text)
 
     # ------------------------------------------------------------------ blocks
     def run_block(self, stmts, st, fx):
@@ -192,9 +215,13 @@ class Verifier(Engine):
         outs = []
         for s in stmts:
             nxt = []
+            uses = [u for u in fx.contract.uses if u["after"] == stmt_header(s)] if fx.contract.uses else []
             for state in cur:
                 for kind, payload, s2 in self.run_stmt(s, state, fx):
                     if kind == NORMAL:
+                        for u in uses:
+                            self.use_lemma(u["lemma"], u["args"], s2, fx, s.lineno)
+                            fx.used.add(u["after"])
                         nxt.append(s2)
                     else:
                         outs.append((kind, payload, s2))
@@ -640,6 +667,9 @@ class Verifier(Engine):
             if which == "values":
                 return h.dlen(r), (lambda i: tV(dv[arr_k[i]]))
             return h.dlen(r), (lambda i: ("tuple", [tV(arr_k[i]), tV(dv[arr_k[i]])]))
+        if x.k == "lit":
+            x = self.mat(x, ec)
+            h = st.heap
         x = normT(x)
         if x.k == "s":
             s_ = x.t
@@ -716,6 +746,16 @@ class Verifier(Engine):
         return res
 
     st_AsyncFor = None
+
+
+def stmt_header(s):
+    if isinstance(s, (ast.If, ast.While)):
+        return ("if " if isinstance(s, ast.If) else "while ") + ast.unparse(s.test)
+    if isinstance(s, (ast.For, ast.AsyncFor)):
+        return source.loop_header(s)
+    if isinstance(s, (ast.Try, ast.With, ast.AsyncWith, ast.FunctionDef, ast.AsyncFunctionDef, ast.ClassDef)):
+        return type(s).__name__
+    return ast.unparse(s)
 
 
 def _target_names(t):
